@@ -130,7 +130,10 @@ def run(rep, pid, feats, n, findings, rule, gover="1.21", tapes=3, histlen=10, b
     progs += (extra_progs or [])
     for c in (corpus or []):
         progs += load_corpus(c)
-    R = cdiff.run_batch(pid, progs, rng, tapes=tapes, histlen=histlen, budget=budget, gover=gover)
+    R = cdiff.run_batch(pid, progs, rng, tapes=tapes, histlen=histlen, budget=budget, gover=gover, oc=True)
+    import optcorpus
+    progs = progs + [{"name": "oc." + nm, "body": [{"s": "raw", "y": True, "text": (ls["co"] if isinstance(ls, dict) else ls)}]}
+                     for nm, ls in optcorpus.GENS.items()]
     by = {p["name"]: p for p in progs}
     shapes = {p["name"]: pgen.known_shapes(p["body"]) for p in progs}
     diffs = cdiff.compare(R["cases"], R["out"], R["ref"])
